@@ -16,7 +16,17 @@ import (
 	"strings"
 	"sync"
 	"time"
+
+	"github.com/davecgh/go-spew/spew"
 )
+
+var spewCfg = spew.ConfigState{Indent: " ", SortKeys: true, DisableMethods: true, DisableCapacities: true}
+
+type frozenRec struct {
+	label string
+	roots []any
+	dump  string
+}
 
 type replayFile struct {
 	Harness string            `json:"harness"`
@@ -40,6 +50,7 @@ type replayOut struct {
 type state struct {
 	gateMu   sync.Mutex
 	gateCond *sync.Cond
+	frozen   []frozenRec
 	gates    []string // order of Gate keys recorded by the engine on this path
 	gatePos  int
 	mu     sync.Mutex
@@ -206,12 +217,25 @@ func Symbolic() bool { return false }
 // Concrete forks a symbolic int over [lo,hi] (identity natively).
 func Concrete(x, lo, hi int) int { return x }
 
-// Frozen declares that nothing reachable from roots may be written from now on.
-func Frozen(label string, roots ...any) {}
+// Frozen declares that nothing reachable from roots may be written from now
+// on. Natively a deep dump of the object graph is taken now and compared at
+// the end of the harness.
+func Frozen(label string, roots ...any) {
+	if cur == nil {
+		return
+	}
+	cur.mu.Lock()
+	cur.frozen = append(cur.frozen, frozenRec{label, roots, spewCfg.Sdump(roots...)})
+	cur.mu.Unlock()
+}
 
 // Preempt is an explicit point at which any other runnable goroutine may be
 // scheduled (a decision of the explorer; natively a yield).
 func Preempt() { runtime.Gosched() }
+
+// FrozenGlobals: the package-level variables of the packages whose import
+// path starts with one of the prefixes must not be written from now on.
+func FrozenGlobals(label string, prefixes ...string) {}
 
 // Yield is a scheduling point.
 func Yield() { runtime.Gosched() }
@@ -231,7 +255,7 @@ func Quiesce() int {
 	if cur == nil {
 		return 0
 	}
-	deadline := time.Now().Add(2 * time.Second)
+	deadline := time.Now().Add(6 * time.Second)
 	for {
 		n := runtime.NumGoroutine() - cur.base
 		if n <= 0 || time.Now().After(deadline) {
@@ -320,6 +344,16 @@ func runOne(rf replayFile, h func()) replayOut {
 		buf := make([]byte, 1<<16)
 		buf = buf[:runtime.Stack(buf, true)]
 		out.Msg = string(buf)
+	}
+	if out.Outcome == "ok" {
+		st.mu.Lock()
+		recs := append([]frozenRec{}, st.frozen...)
+		st.mu.Unlock()
+		for _, r := range recs {
+			if spewCfg.Sdump(r.roots...) != r.dump {
+				out.Outcome, out.Label = "frozen", r.label
+			}
+		}
 	}
 	st.mu.Lock()
 	out.Events = append([]string{}, st.events...)
